@@ -205,6 +205,15 @@ def main(ctx, cases=None, transforms=None):
     api = build.compile_driver(b, "corr_api.cpp")
     n_api, api_bad = api_translation(rng, quick, api)
     ctx.obligation("ECPIntegrator integrals, first and second derivatives unchanged by a common translation (%d matrices)" % n_api, not api_bad, json.dumps(api_bad[:1])[:400])
+    # derivatives: a derivative block transforms as a Cartesian tensor iff it is the documented combination of covariant shifted-shell
+    # blocks (C02/C03 assembly theorems + C03b).  The combination itself is checked against the assembly model for shells up to L = 3 in
+    # general position, where a slip in ONE Cartesian direction (say the zz line of the second derivative) breaks covariance
+    from checks import deriv_common as dc
+    drng = random.Random(ctx.seed * 17 + 88)
+    dcases = [dc.make_case(drng, LA, LB, "distinct", ecpL=drng.choice([1, 2])) for (LA, LB) in ((3, 0), (3, 1), (0, 3), (2, 3), (3, 3), (2, 2), (1, 2))]
+    _, _, dfail, dcrash, _ = dc.run_cases(ctx, 2, dcases, ("QAA", "QBB", "QAB", "R2"))
+    ctx.obligation("second-derivative blocks are the documented tensor combination of the shifted-shell blocks (assembly model, L up to 3, %d cases)" % len(dcases),
+                   not dfail and not dcrash, json.dumps((dfail + dcrash)[:1])[:600])
     kf = {k["id"] for k in core.known_findings().get("findings", []) if k.get("property") == "C08"}
     new, attributed = [], {}
     for f in out:
@@ -220,6 +229,9 @@ def main(ctx, cases=None, transforms=None):
     if new:
         new.sort(key=lambda f: -f["error"] / max(f["allowed"], 1e-300))
         ctx.violation("failing-input", new[0]["what"], {"input": new[0], "n_failing": len(new)}, True)
+    elif dfail or dcrash:
+        f = (dfail + dcrash)[0]
+        ctx.violation("failing-input", "a second-derivative block is not the tensor combination of the shifted-shell blocks: " + str(f.get("where", f.get("what", "")))[:300], {"input": f}, True)
     elif api_bad:
         ctx.violation("failing-input", "integrator matrix %s changes by %.3g (max %.3g) under a common translation" % (api_bad[0]["matrix"], api_bad[0]["difference"], api_bad[0]["max"]), {"input": api_bad[0]}, True)
     elif ctx.broken:
